@@ -4,7 +4,7 @@
    for every expression tree of any size.  Declarations and statements are decided by the round-trip search. *)
 From Coq Require Import List NArith Bool Arith.
 From Verif Require Import Base.Res Gen.GenTokens Model.Lexer Model.ExprParser Proofs.ExprParserProofs Proofs.ExprInstance.
-From Verif Require Model.StParser Model.StInstance Model.StRender Proofs.StExprProofs Proofs.StStmtProofs Proofs.StInstanceProofs Proofs.StRenderProofs.
+From Verif Require Model.StParser Model.StInstance Model.StRender Proofs.StExprProofs Proofs.StStmtProofs Proofs.StInstanceProofs Proofs.StRenderProofs Model.DeclParser Proofs.DeclProofs Proofs.DeclRenderProofs.
 Import ListNotations.
 Close Scope N_scope.
 Open Scope nat_scope.
@@ -66,3 +66,26 @@ Proof. exact StRenderProofs.render_negative_constant_refuted. Qed.
 Theorem C10_negative_selector_refuted :
   StInstance.parse_fb_tokens (StRenderProofs.render_fb [102%N] StRenderProofs.neg_sel_witness) = StInstance.ORejected.
 Proof. exact StRenderProofs.render_negative_selector_refuted. Qed.
+
+(* Function blocks with variable declarations: what the renderer model writes (one block per variable, then the edge inputs,
+   then the statements; compared with write_to_string token for token on every run) is read back by the parser model as
+   exactly the declarations -- name, class, qualifier, type, initial value -- and the statements it was given.  [ditem_ok]
+   excludes the recorded gap (a negative initial value is written '- 5') and combinations no text gives (an initial value
+   in VAR_IN_OUT / VAR_EXTERNAL, CONSTANT inputs, a named type without value kept as 'simple'). *)
+Theorem C10_declarations_parse_render : forall name ds l,
+  Forall DeclRenderProofs.ditem_ok ds -> l <> [] -> Forall StRenderProofs.rstmt l ->
+  StInstance.parse_fbd_tokens (DeclRenderProofs.render_fbd name ds l) = StInstance.O2Parsed ds l.
+Proof. exact DeclRenderProofs.parse_render_fbd. Qed.
+
+Theorem C10_declarations_fixed_point : forall name ds l,
+  Forall DeclRenderProofs.ditem_ok ds -> l <> [] -> Forall StRenderProofs.rstmt l ->
+  match StInstance.parse_fbd_tokens (DeclRenderProofs.render_fbd name ds l) with
+  | StInstance.O2Parsed ds' l' => DeclRenderProofs.render_fbd name ds' l' = DeclRenderProofs.render_fbd name ds l
+  | _ => False
+  end.
+Proof. exact DeclRenderProofs.render_fbd_fixed_point. Qed.
+
+(* without the guard: x : INT := -5 is written  x : INT := - 5 ;  which is rejected (the recorded finding) *)
+Theorem C10_negative_initial_value_refuted :
+  StInstance.parse_fbd_tokens DeclRenderProofs.real_neg_render = StInstance.O2Rejected.
+Proof. exact DeclRenderProofs.render_negative_initial_value_refuted. Qed.
